@@ -228,6 +228,53 @@ func runC05(o *opts) (*summary, error) {
 				}
 			}
 		}
+		// framing through every codec entry point: a message of the wrong length or with a foreign protocol id is refused by
+		// Unmarshal, UnmarshalAs, UnmarshalArray and UnmarshalArrayElement alike (zero payload, the type's own function code)
+		for _, set := range [][]any{requestTypes, responseTypes, eventTypes} {
+			for ti, z := range set {
+				if ti%3 != 0 {
+					continue
+				}
+				t := reflect.TypeOf(z)
+				code := functionCodeOf(t)
+				if code < 0 {
+					continue
+				}
+				for _, ln := range []int{0, 1, 2, 8, 63, 64, 65, 128} {
+					for _, som := range []byte{0x17, 0x19, 0x00, 0x18, 0xff} {
+						b := make([]byte, ln)
+						if ln > 0 {
+							b[0] = som
+						}
+						if ln > 1 {
+							b[1] = byte(code)
+						}
+						for _, entry := range []string{"Unmarshal", "UnmarshalAs", "UnmarshalArray", "UnmarshalArrayElement"} {
+							out := M{"t": "err"}
+							if p, pm := guard(func() {
+								var err error
+								switch entry {
+								case "Unmarshal":
+									err = codec.Unmarshal(b, reflect.New(t).Interface())
+								case "UnmarshalAs":
+									_, err = codec.UnmarshalAs(b, z)
+								case "UnmarshalArray":
+									err = codec.UnmarshalArray([][]byte{b}, reflect.New(reflect.SliceOf(t)).Interface())
+								case "UnmarshalArrayElement":
+									_, err = codec.UnmarshalArrayElement(b, reflect.New(reflect.SliceOf(t)).Interface())
+								}
+								if err == nil {
+									out = M{"t": "ok"}
+								}
+							}); p {
+								out = M{"t": "panic", "msg": pm}
+							}
+							w.put(M{"fn": "framing", "entry": entry, "type": t.Name(), "code": code, "len": ln, "som": int(som), "out": out}, "framing", fmt.Sprintf("fr/%s/%s/%d/%d", entry, t.Name(), ln, som))
+						}
+					}
+				}
+			}
+		}
 		for _, dir := range []string{"req", "rsp"} {
 			for code := 0; code < 256; code++ {
 				for _, som := range []byte{0x17, 0x19, 0x00, 0xff} {
